@@ -3,8 +3,9 @@
    (string.h) as closed-form functions on values, and an evaluator of
    expression trees (Mep/Genome.v [tree]) whose symbols carry strategies.
    Definitions only. *)
-From Coq Require Import ZArith List Bool.
-From VV Require Import Base.F64 Base.Values Interp.Strategy Cxx.CxxMini Mep.Genome.
+From Coq Require Import ZArith List Bool Reals.
+From Flocq Require Import Core IEEE754.BinarySingleNaN.
+From VV Require Import Base.F64 Base.Values Interp.Strategy Cxx.CxxMini Gen.Prims Mep.Genome.
 Import ListNotations.
 Local Open Scope Z_scope.
 
@@ -29,22 +30,32 @@ Definition returns (P : value -> Prop) (o : outcome) : Prop :=
 (* running a translated body on argument values (the same shape as
    Prims/IntSpec.run_body) and, for the ephemeral constants, on the
    parameter stored in the gene *)
+Definition arg_stub (sp : option f64) (sv : nat -> option value) (l : list value) : stub :=
+  {| s_arg := fun i => nth_error l i; s_par := sp; s_var := sv |}.
+(* [run_body_s]: with whatever parameter [sp] and input variables [sv] the interpreter provides *)
+Definition run_body_s (lm : libm) (b : list stmt) (sp : option f64) (sv : nat -> option value)
+           (args : list value) : outcome :=
+  run_stub (strategy_of lm b) (arg_stub sp sv args).
 Definition run_body (lm : libm) (b : list stmt) (args : list value) : outcome :=
-  run_stub (strategy_of lm b) (args_stub args).
+  run_body_s lm b None (fun _ => None) args.
 Definition fetched_body (lm : libm) (b : list stmt) (args : list value) : list nat :=
   fetched (strategy_of lm b) (args_stub args).
 Definition par_stub (p : f64) (l : list value) : stub :=
   {| s_arg := fun i => nth_error l i; s_par := Some p; s_var := fun _ => None |}.
 Definition run_body_p (lm : libm) (b : list stmt) (p : f64) : outcome :=
-  run_stub (strategy_of lm b) (par_stub p []).
+  run_body_s lm b (Some p) (fun _ => None) [].
+
+(* round to nearest even into binary64 (no overflow), on the reals *)
+Definition RN (r : R) : R := round radix2 (FLT_exp (-1074) 53) ZnearestE r.
 
 (* the two contracts of the property, for a body [b]:
    closed_on: when the i-th argument satisfies the i-th predicate of [dom],
-   the body returns a value (no exception, no undefined behaviour) in [P];
+   the body returns a value (no exception, no undefined behaviour) in [P],
+   whatever ephemeral parameter and input variables the interpreter holds;
    strict_on: with [n] arguments of ANY alternatives, if an argument that is
    actually fetched is undefined then the result is undefined. *)
 Definition closed_on (lm : libm) (b : list stmt) (dom : list (value -> Prop)) (P : value -> Prop) : Prop :=
-  forall args, Forall2 (fun d a => d a) dom args -> returns P (run_body lm b args).
+  forall sp sv args, Forall2 (fun d a => d a) dom args -> returns P (run_body_s lm b sp sv args).
 Definition strict_on (lm : libm) (b : list stmt) (n : nat) : Prop :=
   forall args i, length args = n -> In i (fetched_body lm b args) ->
                  nth_error args i = Some VVoid -> run_body lm b args = Val VVoid.
@@ -273,16 +284,45 @@ Definition sig_okb (kc : nat -> kind) (sg : psig) (argcats : list nat) (cat : na
             | [c0; c0'] => Nat.eqb c0 c0' && isk KReal c0 && isk KInt cat
             | _ => false
             end
-  | SIf n => match rev argcats with
-             | c1 :: c1' :: guards =>
-                 Nat.eqb c1 cat && Nat.eqb c1' cat && Nat.eqb (length guards) n &&
-                 forallb (fun c => isk KReal c) guards
-             | _ => false
-             end
+  | SIf n => Nat.eqb (length argcats) (n + 2) &&
+             forallb (fun c => isk KReal c) (firstn n argcats) &&
+             forallb (Nat.eqb cat) (skipn n argcats)
   | SLen => match argcats with [c0] => isk KStr c0 && isk KReal cat | _ => false end
   | SSife => match argcats with
              | [c0; c0'; c1; c1'] => Nat.eqb c0 c0' && Nat.eqb c1 cat && Nat.eqb c1' cat
              | _ => false
              end
   | STerm => match argcats with [] => isk KReal cat | _ => false end
+  end.
+
+(* every primitive of real.h and string.h with the way it uses categories
+   (the constructors of the classes: function("FADD", c[0], {c[0], c[0]}) ...) *)
+Definition c13_table : list (list stmt * psig) :=
+  [ (real_real_body, STerm); (real_integer_body, STerm);
+    (real_abs_body, SArith 1); (real_add_body, SArith 2); (real_aq_body, SArith 2); (real_cos_body, SArith 1);
+    (real_div_body, SArith 2); (real_gt_body, SCmp); (real_idiv_body, SArith 2); (real_ifb_body, SIf 3);
+    (real_ife_body, SIf 2); (real_ifl_body, SIf 2); (real_ifz_body, SIf 1); (real_length_body, SLen);
+    (real_ln_body, SArith 1); (real_lt_body, SCmp); (real_max_body, SArith 2); (real_mod_body, SArith 2);
+    (real_mul_body, SArith 2); (real_sin_body, SArith 1); (real_sqrt_body, SArith 1); (real_sub_body, SArith 2);
+    (real_sigmoid_body, SArith 1); (string_ife_body, SSife) ].
+
+(* the symbols a program may use: a shipped primitive whose strategy is its
+   translated body, an input variable bound to a good value of its category,
+   or a constant that is a good value of its category *)
+Definition sym_ok (lm : libm) (kc : nat -> kind) (vars : nat -> option value) (s : sym) : Prop :=
+  (exists b sg, In (b, sg) c13_table /\ s_strat s = strategy_of lm b /\
+                sig_okb kc sg (s_argcats s) (s_cat s) = true)
+  \/ (s_argcats s = [] /\ exists i v, s_strat s = Var i (fun x => Ret (Val x)) /\
+                                     vars i = Some v /\ good (kc (s_cat s)) v)
+  \/ (s_argcats s = [] /\ exists v, s_strat s = Ret (Val v) /\ good (kc (s_cat s)) v).
+
+(* a program: every node an admissible symbol with a finite ephemeral
+   parameter, one child per argument, each child rooted in the category the
+   argument requires *)
+Fixpoint wt (lm : libm) (kc : nat -> kind) (vars : nat -> option value) (t : tree) {struct t} : Prop :=
+  match t with
+  | Node s par kids =>
+      sym_ok lm kc vars s /\ F64.is_finite par = true /\ map root_cat kids = s_argcats s /\
+      (fix all (l : list tree) : Prop :=
+         match l with [] => True | k :: r => wt lm kc vars k /\ all r end) kids
   end.
